@@ -105,6 +105,16 @@ CLAIMED["C26"] = (
     COMMON_NOTE + "&loopVariable is modelled as a fresh cell holding the current value.",
     "contract-based deductive verification (search/count loop invariants, recursive count specs + SMT)", "6/C26")
 
+CLAIMED["C39"] = (
+    "Proof of the ORDER in which configuration sources are applied: defaultConfigFiles ends with repo, per-architecture and local config in "
+    "that order after the global files; in ReadConfigFiles / ReadConfigFilesOnly every profile file <f>.<p_j> is read immediately after <f> "
+    "(j = 0) or <f>.<p_(j-1)> (ghost variable tracking the last file read + call-site obligations, for all file and profile lists); "
+    "DefaultConfiguration does not pre-populate the accumulating list options and setDefault fills a list only if no source set it. "
+    "Kernel-only: gcfg's merge semantics (later scalar wins, lists accumulate, blank clears) and ApplyOverrides (-o) are library / reflection "
+    "code outside the proof.",
+    COMMON_NOTE + "readConfigFile / readConfigFileOnly are opaque (they may change any heap); filepath.Join is an uninterpreted pure function.",
+    "contract-based deductive verification (ghost tracking of call order, call-site obligations + SMT)", "6/C39")
+
 NOT_APPLICABLE = {
     "C05": "liveness / whole-run exit status under all schedules: no per-call contract expresses it (safety fragment is under C04)",
     "C30": "OS process groups, signals and wall-clock bounds; goroutines and select are outside the sequential contract model",
